@@ -9,6 +9,7 @@ package main
 import (
 	"bytes"
 	"context"
+	"encoding/json"
 	"errors"
 	"fmt"
 	"io"
@@ -298,6 +299,21 @@ func (r *copyRun) options(conc int) oras.CopyGraphOptions {
 				if err := r.fire(f, n); err != nil {
 					return nil, err
 				}
+			}
+			if d.MediaType == BundleMT {
+				// the caller's own non-leaf type, read through the fetcher it is handed (the
+				// copy's caching proxy), as the option's documentation recommends
+				b, err := content.FetchAll(ctx, fetcher, d)
+				if err != nil {
+					return nil, err
+				}
+				var doc struct {
+					Children []ocispec.Descriptor `json:"children"`
+				}
+				if err := json.Unmarshal(b, &doc); err != nil {
+					return nil, err
+				}
+				return doc.Children, nil
 			}
 			return content.Successors(ctx, fetcher, d)
 		},
